@@ -280,6 +280,8 @@ func limiterSerial(p *Prog, r *Report, rule string) {
 }
 
 func runC03(p *Prog, r *Report) {
+	// R12: a client cannot mint itself fresh sources: the built-in extractors name the source exactly (shared with C19.R1/R2)
+	r.Borrow(p, runC19, map[string]string{"C19.R1": "C03.R12", "C19.R2": "C03.R12"}, nil)
 	// R9: rejection is signalled by a positive delay only: the advertised delay must be the exact positive product (shared with C13.R4)
 	r.Borrow(p, runC13, map[string]string{"C13.R4": "C03.R9"}, nil)
 	c03Limiter(p, r)
@@ -522,6 +524,82 @@ func runC03(p *Prog, r *Report) {
 		r.Check(okF && okD && d["ns"] == 1 && len(d) == 1, "C03.R4", "ratelimit.tokenBucket.timePerToken = period/average in "+FName(st.Parent()), p.InstrPos(st), "ns per token", "timePerToken is stored as "+truncate(e.String(), 120)+" (dimension "+d.String()+")")
 	}
 	r.Floor("C03.R4", nT, 2, "stores of timePerToken")
+	// ---- R13 the set survives an update ----
+	// Update (run on every request of a known source) never replaces the set wholesale — surviving buckets keep
+	// their level — and whenever it zeroes the longest period it recomputes it over all buckets on every path
+	// (the entry lifetime is derived from it: a longest period stuck at 0 forgets the source after one second)
+	if upd := p.MethodOf(b.setTyp, "Update"); upd != nil && upd.Blocks != nil {
+		r.Fn(FName(upd))
+		var whole ssa.Instruction
+		for _, blk := range upd.Blocks {
+			for _, in := range blk.Instrs {
+				if st, ok := in.(*ssa.Store); ok && stripConv(st.Addr) == ssa.Value(upd.Params[0]) {
+					whole = in
+				}
+				if c, ok := in.(*ssa.Call); ok {
+					if f := c.Common().StaticCallee(); f != nil && f.Signature.Recv() == nil && f.Signature.Results().Len() == 1 && derefNamed(f.Signature.Results().At(0).Type()) == b.setTyp {
+						whole = in
+					}
+				}
+			}
+		}
+		r.Check(whole == nil, "C03.R13", "ratelimit.(*TokenBucketSet).Update: keeps the buckets it has", p.FuncPos(upd), "no whole-set assignment, no new set built",
+			"Update builds a new set / overwrites the whole set"+atInstr(p, whole)+": the buckets of rates that did not change start full again, and a source whose rate set changes shape is never limited by them")
+		// ... and it brings the buckets in line with the rates it is given on EVERY call (no "same object as last
+		// time" shortcut: a rate set re-configured in place would never reach the buckets of a busy source)
+		if len(upd.Params) > 1 {
+			isRatesLoop := func(in ssa.Instruction) bool {
+				nx, ok := in.(*ssa.Next)
+				if !ok {
+					return false
+				}
+				rg, ok := nx.Iter.(*ssa.Range)
+				if !ok {
+					return false
+				}
+				u, ok := stripConv(rg.X).(*ssa.UnOp)
+				if !ok {
+					return false
+				}
+				_, _, base, ok := fieldOf(u.X)
+				return ok && stripConv(base) == ssa.Value(upd.Params[1])
+			}
+			ret := ReturnReachableAvoiding(upd, nil, isRatesLoop, nil)
+			r.Paths++
+			r.Check(ret == nil, "C03.R13", "ratelimit.(*TokenBucketSet).Update: the given rates are applied on every call", p.FuncPos(upd), "every return has entered the loop over the given rate set",
+				"Update can return without looking at the rates it was given"+posOf(p, ret)+": a source that stays busy keeps its old burst / rate after the rate set was changed")
+		}
+		mpF := fieldByRole(b.setTyp, "maxPeriod", isDurationT, nil)
+		if mpF != "" {
+			isHdr := func(in ssa.Instruction) bool {
+				nx, ok := in.(*ssa.Next)
+				if !ok {
+					return false
+				}
+				rg, ok := nx.Iter.(*ssa.Range)
+				if !ok || !isFieldLoad(rg.X, b.setTyp, bucketsField(b.setTyp)) {
+					return false
+				}
+				for lb := range loopBlocks(nx.Block()) {
+					for _, x := range lb.Instrs {
+						if s2, ok := x.(*ssa.Store); ok && isFieldAddr(s2.Addr, b.setTyp, mpF) {
+							return true
+						}
+					}
+				}
+				return false
+			}
+			for _, st := range FieldStores(upd, b.setTyp, mpF) {
+				if k, ok := constInt(st.Val); !ok || k != 0 {
+					continue
+				}
+				ret := ReturnReachableAvoiding(upd, st, isHdr, nil)
+				r.Paths++
+				r.Check(ret == nil, "C03.R13", "ratelimit.(*TokenBucketSet).Update: the longest period is recomputed whenever it is reset", p.InstrPos(st), "every path from the reset to a return enters the loop over all buckets that folds their periods",
+					"the longest period is set to 0 and a return is reachable without recomputing it"+posOf(p, ret)+": the entry lifetime becomes one second and a source idle for longer is forgotten with its debt")
+			}
+		}
+	}
 	// ---- R5 all buckets consulted ----
 	for _, c := range Calls(b.setCons) {
 		if c.Common().StaticCallee() == b.consume {
@@ -766,6 +844,10 @@ func c03Capacity(p *Prog, r *Report, rule string, tl *types.Named) {
 // ---------------- C13 ----------------
 
 func runC13(p *Prog, r *Report) {
+	// R11: the bucket set is kept under the unchanged source token (shared with C14.R1)
+	r.Borrow(p, runC14, map[string]string{"C14.R1": "C13.R11"}, nil)
+	// R12: the buckets follow the rates handed in on every request (shared with C03.R13)
+	r.Borrow(p, runC03, map[string]string{"C03.R13": "C13.R12"}, nil)
 	// R10: a source's budget is its own: the built-in extractors name the source exactly (shared with C19.R1/R2)
 	r.Borrow(p, runC19, map[string]string{"C19.R1": "C13.R10", "C19.R2": "C13.R10"}, nil)
 	// R8: the rejection a client is shown is its own: what the limiter hands to the error handler after releasing its lock is not shared limiter state (shared with C09.R1 for the limiter)
@@ -1295,6 +1377,7 @@ func condOperand(ifi *ssa.If) ssa.Value {
 func mutantsC03() []Mutant {
 	tl, bk, bs := "ratelimit/tokenlimiter.go", "ratelimit/bucket.go", "ratelimit/bucketset.go"
 	return []Mutant{
+		{Name: "update-rebuilds-set-on-shape-change", File: "ratelimit/bucketset.go", Old: "func (tbs *TokenBucketSet) Update(rates *RateSet) {\n", New: "func (tbs *TokenBucketSet) Update(rates *RateSet) {\n\tif len(rates.m) != len(tbs.buckets) {\n\t\t*tbs = *NewTokenBucketSet(rates)\n\t\treturn\n\t}\n", Expect: "C03.R13"},
 		{Name: "refill-returns-before-cap", File: "ratelimit/bucket.go", Old: "\tif tokens != tb.availableTokens {\n\t\ttb.lastRefresh = now\n\t\ttb.availableTokens = tokens\n\t}\n", New: "\tif tokens == tb.availableTokens {\n\t\treturn\n\t}\n\ttb.lastRefresh = now\n\ttb.availableTokens = tokens\n", Expect: "C03.R4"},
 		{Name: "consume-lazy-refill", File: "ratelimit/bucket.go", Old: "\ttb.updateAvailableTokens()\n\ttb.lastConsumed = 0\n", New: "\ttb.lastConsumed = 0\n\tif tokens == 0 || tb.availableTokens < tokens {\n\t\ttb.updateAvailableTokens()\n\t}\n", Expect: "C03.R4"},
 		{Name: "update-only-when-rates-differ-from-default", File: "ratelimit/tokenlimiter.go", Old: "\t\tbucketSet.Update(effectiveRates)\n", New: "\t\tif effectiveRates != tl.defaultRates {\n\t\t\tbucketSet.Update(effectiveRates)\n\t\t}\n", Expect: "C03.R2"},
@@ -1320,6 +1403,7 @@ func mutantsC03() []Mutant {
 func mutantsC13() []Mutant {
 	tl, bk, bs := "ratelimit/tokenlimiter.go", "ratelimit/bucket.go", "ratelimit/bucketset.go"
 	return []Mutant{
+		{Name: "update-skipped-for-same-rateset-object", File: "ratelimit/bucketset.go", Old: "func (tbs *TokenBucketSet) Update(rates *RateSet) {\n", New: "func (tbs *TokenBucketSet) Update(rates *RateSet) {\n\tif rates == nil {\n\t\treturn\n\t}\n", Expect: "C13.R12"},
 		{Name: "last-refusing-bucket-wins", File: "ratelimit/bucketset.go", Old: "\t\t\t\tmaxDelay = maxDuration(maxDelay, delay)\n", New: "\t\t\t\tif delay > 0 {\n\t\t\t\t\tmaxDelay = delay\n\t\t\t\t}\n", Expect: "C13.R2"},
 		{Name: "set-skips-instant-buckets", File: "ratelimit/bucketset.go", Old: "\tfor _, tokenBucket := range tbs.buckets {\n\t\t// We keep calling", New: "\tfor _, tokenBucket := range tbs.buckets {\n\t\tif tokenBucket.timePerToken == 0 {\n\t\t\tcontinue\n\t\t}\n\t\t// We keep calling", Expect: "C13.R9"},
 		{Name: "consume-outside-mutex", File: tl, Old: "\tdelay, err := bucketSet.Consume(amount)\n", New: "\ttl.mutex.Unlock()\n\tdelay, err := bucketSet.Consume(amount)\n\ttl.mutex.Lock()\n", Expect: "C13.R6"},
